@@ -249,3 +249,5 @@ def run(ck):
     # lines (C16-R4) - nothing else (a time stamp, a mode line) makes a name disappear
     from . import c16
     c16.r4(ck_alias(ck, "C01-R7"))
+    # an exact diff applies without offset only if offsets are kept right from hunk to hunk (C02-R6)
+    c02.r6_offset_bookkeeping(ck, rule="C01-R8")
